@@ -19,6 +19,7 @@ Terms are nested tuples rebuilt from MIR temporaries (no execution, no solver):
   ('slice', base, from, to)       subslice pattern
 """
 import json
+import os
 import re
 
 MAXDEPTH = 40
@@ -824,9 +825,76 @@ def affine_str(t):
     return ' '.join(parts)
 
 
+def _rename_map(j):
+    """Private functions that were renamed (or moved inside their module) relative to the reference vocabulary: a vocabulary
+    path that no longer exists is matched with the ONE new path that has the same parent, argument types and return type.
+    Returns {new path: vocabulary path}. Ambiguous or unmatched paths are left alone (the rules then report anchor-missing)."""
+    vp = os.path.join(os.path.dirname(os.path.dirname(os.path.abspath(__file__))), 'rules', 'vocab.txt')
+    if not os.path.exists(vp):
+        return {}
+    vocab = set(l.rstrip('\n') for l in open(vp))
+    have = {b['path']: b for b in j['bodies']}
+    gone = [p for p in vocab if p not in have and '{closure' not in p]
+    new = [p for p in have if p not in vocab and '{closure' not in p and have[p].get('kind') != 'Closure']
+    if not gone or not new:
+        return {}
+
+    def parent(p):
+        return p.rsplit('::', 1)[0] if '::' in p else ''
+
+    def module(p):
+        return p.split('::')[0]
+    # signatures of the vanished functions are not in the new facts; use the reference signature table if present
+    sp = os.path.join(os.path.dirname(vp), 'vocab_sigs.json')
+    sigs = json.load(open(sp)) if os.path.exists(sp) else {}
+    out = {}
+    used = set()
+    for g in sorted(gone):
+        sg = sigs.get(g)
+        if sg is None:
+            continue
+        cands = [n for n in new if n not in used and [have[n].get('inputs'), have[n].get('output')] == sg and (parent(n) == parent(g) or module(n) == module(g))]
+        same_parent = [n for n in cands if parent(n) == parent(g)]
+        pick = same_parent if len(same_parent) == 1 else (cands if len(cands) == 1 else [])
+        if len(pick) == 1:
+            out[pick[0]] = g
+            used.add(pick[0])
+    return out
+
+
+def _apply_renames(j, ren):
+    if not ren:
+        return
+    items = sorted(ren.items(), key=lambda kv: -len(kv[0]))
+
+    def fix(p):
+        if not isinstance(p, str):
+            return p
+        for n, g in items:
+            if p == n:
+                return g
+            if p.startswith(n + '::'):
+                return g + p[len(n):]
+        return p
+    for b in j['bodies']:
+        b['path'] = fix(b['path'])
+        for blk in b['blocks']:
+            t = blk['term']
+            if t['k'] == 'call':
+                c = t['callee']
+                for k in ('path', 'resolved'):
+                    if k in c:
+                        c[k] = fix(c[k])
+            for st in blk['stmts']:
+                if st['k'] == 'assign' and st['r'].get('k') == 'agg' and st['r'].get('agg') == 'closure':
+                    st['r']['closure'] = fix(st['r']['closure'])
+    j['renamed'] = dict(ren)
+
+
 class Facts:
     def __init__(self, path):
         self.j = json.load(open(path))
+        _apply_renames(self.j, _rename_map(self.j))
         self.bodies = {}
         for b in self.j['bodies']:
             self.bodies[b['path']] = Body(b, self)
